@@ -51,6 +51,9 @@ type c10sess struct {
 	lastMsg string
 	alive   bool
 	link    bool // an authenticated services link (its lines carry a pseudo-client prefix)
+	// a client that does not number its messages sends client message id 0: the
+	// marker of the session is then 0, which is a value like any other
+	lastZero, zeroUsed bool
 }
 
 func waitApplied(n *vnode) {
@@ -85,8 +88,13 @@ func TestVerifC10(t *testing.T) {
 	post := func(s *c10sess, data string) (int, uint64) {
 		cmid++
 		code, _, _ := c.post(s.s, data, cmid)
-		s.lastCm, s.lastMsg = cmid, data
+		s.lastCm, s.lastMsg, s.lastZero = cmid, data, false
 		return code, cmid
+	}
+	postZero := func(s *c10sess, data string) int {
+		code, _, _ := c.post(s.s, data, 0)
+		s.lastCm, s.lastMsg, s.lastZero, s.zeroUsed = 0, data, true, true
+		return code
 	}
 	for i := 0; i < 4; i++ {
 		s, _, err := c.createSession()
@@ -117,7 +125,7 @@ func TestVerifC10(t *testing.T) {
 	}
 	// retry: repeat the last message of s k times; nothing may be appended for it
 	retry := func(s *c10sess, where string, cl *vclient) {
-		if s.lastCm == 0 {
+		if s.lastCm == 0 && !s.lastZero {
 			return
 		}
 		k := rng.Intn(3) + 1
@@ -174,7 +182,14 @@ func TestVerifC10(t *testing.T) {
 		default:
 			line = fmt.Sprintf("PRIVMSG #c :p-%d", payload)
 		}
-		if code, _ := post(s, line); code != 200 {
+		if payload%13 == 6 && !s.link && !s.zeroUsed && s.lastCm != 0 {
+			// once per session, after numbered messages: a message with client message id 0
+			if code := postZero(s, line); code != 200 {
+				viol("post-failed", fmt.Sprintf("POST %q with client message id 0 answered %d", line, code))
+				continue
+			}
+			rep.Obs("posts-with-client-message-id-0", 1)
+		} else if code, _ := post(s, line); code != 200 {
 			viol("post-failed", fmt.Sprintf("POST %q answered %d", line, code))
 			continue
 		}
